@@ -1,6 +1,7 @@
 package bounds
 
 import (
+	"os"
 	"fmt"
 	"go/constant"
 	"go/token"
@@ -213,6 +214,8 @@ type inst struct {
 	params map[string]Lin // lengths of slice parameters (for templates)
 	loops  []*ir.Loop
 	failedInv bool
+	// edge: value of another header phi on the edge currently examined (relational templates)
+	edge func(o *ssa.Phi) (AVal, bool)
 }
 
 // Run analyses fn as an entry point: parameters are unknown (slices have a
@@ -240,6 +243,11 @@ func (a *Analyzer) call(fn *ssa.Function, args []AVal, st *State, depth int, ctx
 			break
 		}
 	}
+	if os.Getenv("BOUNDS_DEBUG") != "" && strings.Contains(ctx, os.Getenv("BOUNDS_DEBUG")) {
+		for ph, ts := range in.inv {
+			fmt.Fprintf(os.Stderr, "BOUNDS inv %s %s(%s): %v\n", ctx, ph.Name(), ph.Comment, ts)
+		}
+	}
 	in.record = record
 	in.runOnce(args, st)
 	return in.rets
@@ -264,6 +272,16 @@ func (in *inst) runOnce(args []AVal, st0 *State) {
 			for _, ins := range l.Header.Instrs {
 				if ph, ok := ins.(*ssa.Phi); ok {
 					in.inv[ph] = in.templates()
+					// relational: an integer that counts the elements of a slice grown in the same loop
+					if _, isInt := ph.Type().Underlying().(*types.Basic); isInt {
+						for _, other := range l.Header.Instrs {
+							if o, ok := other.(*ssa.Phi); ok && o != ph {
+								if _, isSl := o.Type().Underlying().(*types.Slice); isSl {
+									in.inv[ph] = append(in.inv[ph], "eqlen:"+o.Name())
+								}
+							}
+						}
+					}
 				}
 			}
 		}
@@ -346,6 +364,13 @@ func (in *inst) runOnce(args []AVal, st0 *State) {
 						in.a.LoopPhis = append(in.a.LoopPhis, LoopPhi{Phi: ph, Header: hv, BackEdge: []AVal{inc}})
 					}
 				}
+				ei := i
+				in.edge = func(o *ssa.Phi) (AVal, bool) {
+					if ei < len(o.Edges) {
+						return in.val(es, o.Edges[ei]), true
+					}
+					return AVal{}, false
+				}
 				var keep []string
 				for _, t := range in.inv[ph] {
 					if in.templateHolds(es, t, hv, inc, true) {
@@ -382,7 +407,8 @@ func rpo(fn *ssa.Function) []*ssa.BasicBlock {
 
 // templates: candidate facts about a merged / loop-carried integer v.
 func (in *inst) templates() []string {
-	ts := []string{"ge0"}
+	// "gem1": the index of a range loop starts at -1 and is incremented before it is used
+	ts := []string{"ge0", "gem1"}
 	var ps []string
 	for p := range in.params {
 		ps = append(ps, p)
@@ -401,14 +427,23 @@ func (in *inst) templateHolds(st *State, t string, hv, inc AVal, _ bool) bool {
 		switch {
 		case t == "ge0":
 			return Proves(st.Facts, GE(inc.Int, Const(0)))
+		case t == "gem1":
+			return Proves(st.Facts, GE(inc.Int, Const(-1)))
 		case strings.HasPrefix(t, "le:"):
 			if pl, ok := in.params[t[3:]]; ok {
 				return Proves(st.Facts, LE(inc.Int, pl))
 			}
+		case strings.HasPrefix(t, "eqlen:"):
+			if o := in.phiNamed(t[6:]); o != nil && in.edge != nil {
+				if ov, ok := in.edge(o); ok && ov.Kind == KSlice {
+					return Proves(st.Facts, GE(inc.Int, ov.Len)) && Proves(st.Facts, LE(inc.Int, ov.Len))
+				}
+			}
+			return false
 		}
 	case KSlice:
 		switch {
-		case t == "ge0":
+		case t == "ge0", t == "gem1":
 			return true
 		case strings.HasPrefix(t, "le:"):
 			if pl, ok := in.params[t[3:]]; ok {
@@ -432,11 +467,35 @@ func (in *inst) assumeTemplate(st *State, t string, v AVal) {
 	switch {
 	case t == "ge0":
 		st.add(GE(x, Const(0)))
+	case t == "gem1":
+		st.add(GE(x, Const(-1)))
 	case strings.HasPrefix(t, "le:"):
 		if pl, ok := in.params[t[3:]]; ok {
 			st.add(LE(x, pl))
 		}
+	case strings.HasPrefix(t, "eqlen:"):
+		if o := in.phiNamed(t[6:]); o != nil && v.Kind == KInt {
+			if ov, ok := in.env[o]; ok && ov.Kind == KSlice {
+				st.add(EQ(x, ov.Len)...)
+			}
+		}
 	}
+}
+
+// phiNamed finds a phi of the analysed function by its SSA name.
+func (in *inst) phiNamed(name string) *ssa.Phi {
+	for _, b := range in.fn.Blocks {
+		for _, ins := range b.Instrs {
+			ph, ok := ins.(*ssa.Phi)
+			if !ok {
+				break
+			}
+			if ph.Name() == name {
+				return ph
+			}
+		}
+	}
+	return nil
 }
 
 // merge joins predecessor states at block b (l != nil: b is a loop header).
@@ -494,6 +553,50 @@ func (in *inst) merge(b *ssa.BasicBlock, preds []*State, predBlocks []*ssa.Basic
 			}
 		}
 	}
+	// loop header phis: fresh symbols first, then the surviving candidate invariants. A candidate must
+	// hold on the loop's entry edges too (the back edges are checked after the body was analysed).
+	if l != nil {
+		var phis []*ssa.Phi
+		for _, ins := range b.Instrs {
+			if ph, ok := ins.(*ssa.Phi); ok {
+				phis = append(phis, ph)
+				in.env[ph] = in.a.freshOf(st, ph.Type(), "phi:"+ph.Name())
+			}
+		}
+		for _, ph := range phis {
+			v := in.env[ph]
+			var keep []string
+			for _, t := range in.inv[ph] {
+				okT := true
+				for i, pb := range b.Preds {
+					for j, q := range predBlocks {
+						if q == pb && !l.Blocks[pb] {
+							i, j := i, j
+							in.edge = func(o *ssa.Phi) (AVal, bool) {
+								if i < len(o.Edges) {
+									return in.val(preds[j], o.Edges[i]), true
+								}
+								return AVal{}, false
+							}
+							if !in.templateHolds(preds[j], t, v, in.val(preds[j], ph.Edges[i]), false) {
+								okT = false
+							}
+							in.edge = nil
+						}
+					}
+				}
+				if okT {
+					keep = append(keep, t)
+				}
+			}
+			in.inv[ph] = keep
+		}
+		for _, ph := range phis {
+			for _, t := range in.inv[ph] {
+				in.assumeTemplate(st, t, in.env[ph])
+			}
+		}
+	}
 	// phis
 	for _, ins := range b.Instrs {
 		ph, ok := ins.(*ssa.Phi)
@@ -501,12 +604,7 @@ func (in *inst) merge(b *ssa.BasicBlock, preds []*State, predBlocks []*ssa.Basic
 			continue
 		}
 		if l != nil {
-			v := in.a.freshOf(st, ph.Type(), "phi:"+ph.Name())
-			for _, t := range in.inv[ph] {
-				in.assumeTemplate(st, t, v)
-			}
-			in.env[ph] = v
-			continue
+			continue // handled above
 		}
 		// non-loop merge: equal on all reachable preds?
 		var vals []AVal
@@ -718,6 +816,13 @@ func (in *inst) assume(st *State, cond ssa.Value, truth bool) {
 			st.add(GE(x.Int, y.Int))
 		case token.EQL:
 			st.add(EQ(x.Int, y.Int)...)
+		case token.NEQ:
+			// at a boundary: x != y with x >= y known gives x >= y+1 (and symmetrically)
+			if Proves(st.Facts, GE(x.Int, y.Int)) {
+				st.add(GE(x.Int, y.Int.AddK(1)))
+			} else if Proves(st.Facts, LE(x.Int, y.Int)) {
+				st.add(LE(x.Int, y.Int.AddK(-1)))
+			}
 		}
 	case *ssa.Call:
 		// boolean helpers are not interpreted
